@@ -400,3 +400,10 @@ func Hex(b []byte) string {
 
 // FullHex never truncates (replay files).
 func FullHex(b []byte) string { return hex.EncodeToString(b) }
+
+// NewRand returns a PRNG that depends only on (seed, stream) — for corpora that
+// must not vary with VERIF_SEED.
+func NewRand(seed uint64, stream string) *rand.Rand {
+	h := sha256.Sum256([]byte(stream))
+	return rand.New(rand.NewPCG(seed, binary.LittleEndian.Uint64(h[:8])))
+}
